@@ -309,16 +309,16 @@ func main() {
 			idx++
 			r := prng.New(fl.Seed, "C06W", idx)
 			ops := writeOp(r, "a", "30ms")
-			ops = append(ops, kvx.Op{K: "W", Key: "a", Ver: ver, D: 300}, kvx.Op{K: "G", Key: "a"}, kvx.Op{K: "L", Pat: "*"})
+			ops = append(ops, kvx.Op{K: "W", Key: "a", Ver: ver, D: 1000}, kvx.Op{K: "G", Key: "a"}, kvx.Op{K: "L", Pat: "*"})
 			emit("inmem", "C:waiter-outlives-record:"+ver, ops)
 		}
 		// two waiters on the 30 ms record: the one that registered first gives up after 8 ms, the other one
-		// must still end with ErrNotExist when the record expires (not with its own 300 ms deadline)
-		for _, d1 := range []int64{8, 300} {
+		// must still end with ErrNotExist when the record expires (not with its own 1 s deadline)
+		for _, d1 := range []int64{8, 1000} {
 			idx++
 			r := prng.New(fl.Seed, "C06W2", idx)
 			ops := writeOp(r, "a", "30ms")
-			ops = append(ops, kvx.Op{K: "W2", Key: "a", Ver: "cur", D: d1, D2: 300}, kvx.Op{K: "G", Key: "a"})
+			ops = append(ops, kvx.Op{K: "W2", Key: "a", Ver: "cur", D: d1, D2: 1000}, kvx.Op{K: "G", Key: "a"})
 			emit("inmem", fmt.Sprintf("C:two-waiters:first-leaves-after-%dms", d1), ops)
 		}
 	}
